@@ -151,25 +151,45 @@ def check_qf(q, timeout_ms):
     return 'unknown', None, True
 
 
-def check_nnf(q, timeout_ms):
+def _nnf_split(formulas):
+    """negation normal form with skolemisation (z3 tactic `nnf`) -> (ground conjuncts, top-level universal conjuncts)"""
     g = z3.Goal()
-    for a in unit_resolve(flatten(q.assumptions)):
-        g.add(a)
-    g.add(z3.Not(q.goal))
+    for f in formulas:
+        g.add(f)
     res = z3.Tactic('nnf')(g)
     if len(res) != 1:
-        return 'unknown'
+        raise z3.Z3Exception('nnf produced several goals')
     A = []
     for f in res[0]:
         A += conjuncts(f)
     A = unit_resolve(A)
-    ground = [z3.simplify(a) for a in A if not z3.is_quantifier(a)]
-    quants = [a for a in A if z3.is_quantifier(a)]
-    insts = [fold(i_) for i_ in inst.instantiate(quants, ground, rounds=3)]
+    return [z3.simplify(a) for a in A if not z3.is_quantifier(a)], [a for a in A if z3.is_quantifier(a)]
+
+
+def check_nnf(q, timeout_ms, rounds=4):
+    """Instantiate-and-check with skolemisation between the rounds: an instance of a lemma whose hypothesis is itself
+    universally quantified becomes, in negation normal form, a clause about a fresh skolem constant, for which the next
+    round can instantiate the facts that establish the hypothesis."""
+    ground, quants = _nnf_split(unit_resolve(flatten(q.assumptions)) + [z3.Not(q.goal)])
+    seen = {}
+    for _ in range(rounds):
+        new = []
+        for i_ in inst.instantiate(quants, ground, rounds=1):
+            f_ = fold(i_)
+            if f_.get_id() not in seen:
+                seen[f_.get_id()] = f_
+                new.append(f_)
+        if not new:
+            break
+        g2, q2 = _nnf_split(new)
+        ground += g2
+        quants += q2
+        if len(ground) > 6000:
+            break
     s = z3.Solver()
     s.set('timeout', timeout_ms)
     s.set('smt.mbqi', False)
-    for a in ground + insts:
+    for a in ground:
         s.add(a)
     r = s.check()
     return 'unsat' if r == z3.unsat else ('sat' if r == z3.sat else 'unknown')
